@@ -75,6 +75,18 @@ def negra_expect(node):
 
 def check_negra(case):
     tree = M.build(case, T)
+    if case.get("pre"):
+        # history on the same tree object: earlier markings and token edits; judged against the tree as it is then
+        from checks.C12 import apply_pre
+        for step in case["pre"]:
+            if step[0] == "mark":
+                tree = call("C15/pre/negra_mark_heads", transform.negra_mark_heads, tree)
+            else:
+                tree = apply_pre(tree, [step])
+        try:
+            case = {"sid": case["sid"], "root": M.strip_ids(M.snapshot(tree)[0])}
+        except M.Malformed as bad:
+            raise violation("C15/pre/malformed:" + bad.reason, str(bad))
     result = call("C15/negra_mark_heads", transform.negra_mark_heads, tree)
     return heads_ok("C15/negra", result, case, negra_expect)
 
@@ -242,8 +254,11 @@ def gen_negra(ctx):
         ctx.count(key=case["root"], nontrivial=res, classes=["negra:" + h for h in set(hist)])
         if res:
             ctx.sample(case["root"], cap=1)
-    ctx.hyp(S.tree_model(max_tokens=10 if ctx.tier == "quick" else 14, edges=edges, max_arity=6, disc=0.4), body,
-            max_examples=1500 if ctx.tier == "quick" else 8000)
+    steps = st.one_of(st.just(["mark"]), st.tuples(st.just("insert"), st.integers(0, 20), st.sampled_from([",", "x"])).map(list),
+                      st.tuples(st.just("delete"), st.integers(0, 20)).map(list))
+    strategy = st.builds(lambda tree, pre: dict(tree, pre=pre), S.tree_model(max_tokens=10 if ctx.tier == "quick" else 14, edges=edges, max_arity=6, disc=0.4),
+                         st.one_of(st.just([]), st.just([]), st.lists(steps, min_size=1, max_size=3)))
+    ctx.hyp(strategy, body, max_examples=1500 if ctx.tier == "quick" else 8000)
 
 
 def gen_invalid(ctx):
